@@ -10,8 +10,15 @@ for _v in ('OPENBLAS_NUM_THREADS', 'OMP_NUM_THREADS', 'MKL_NUM_THREADS'):
 REPO = os.path.abspath(os.environ.get('VERIF_REPO', '/repo'))
 
 
+class SimAbort(BaseException):
+    """Raised by a seam when a step cap is exceeded (BaseException: the library's
+    own 'except Exception' can never swallow it)."""
+
+
 class VirtualClock:
-    """The only clock the library reads. Advanced by the simulator only."""
+    """The only clock the library reads. Advanced by the simulator only. Its read
+    counter doubles as a step counter for loops that have no other seam (als_func)."""
+    cap = 0
 
     def __init__(self):
         self.t = 0.0
@@ -21,6 +28,8 @@ class VirtualClock:
 
     def now(self):
         self.reads += 1
+        if self.cap and self.reads > self.cap:
+            raise SimAbort('clock read cap %d exceeded (loop does not stop)' % self.cap)
         return self.t
 
     def advance(self, dt):
